@@ -514,14 +514,19 @@ func runC12(c *Ctx) {
 							continue
 						}
 						cmp, ok := iff.Cond.(*ssa.BinOp)
-						if !ok || cmp.Op != token.EQL || cmp.X != ssa.Value(whence) {
+						if !ok || (cmp.Op != token.EQL && cmp.Op != token.NEQ) || cmp.X != ssa.Value(whence) {
 							continue
 						}
 						k, ok := constInt(cmp.Y)
 						if !ok {
 							continue
 						}
-						if b.Succs[0] == pred || b.Succs[0].Dominates(pred) || (b == pred && b.Succs[0] == phi.Block()) {
+						// `whence == K` selects on its true edge, `whence != K` on its false edge
+						side := 0
+						if cmp.Op == token.NEQ {
+							side = 1
+						}
+						if b.Succs[side] == pred || b.Succs[side].Dominates(pred) || (b == pred && b.Succs[side] == phi.Block()) {
 							kconst = k
 						}
 					}
@@ -849,7 +854,27 @@ func checkWorkerErrorDelivery(c *Ctx, rule string) {
 							c.und(rule, name+" error value", pos(in), "error value is not a literal")
 							return
 						}
-						offT := affineOf(litField(lit, "off"))
+						offV := litFieldWhere(lit, isBasicKind(types.Int64))
+						if offV == nil {
+							c.und(rule, name+" error value", pos(in), "the error value has no offset field")
+							return
+						}
+						offT := affineOf(offV)
+						// the name of the offset field of the work item (the struct that carries the reply channel)
+						workOff := ".off"
+						for _, f := range append([]*ssa.Function{fn}, fn.AnonFuncs...) {
+							eachInstr(f, func(y ssa.Instruction) {
+								if a, ok := y.(*ssa.Alloc); ok {
+									if st := derefStruct(a.Type()); st != nil && hasFieldWhere(st, isChanOf("result")) {
+										for i := 0; i < st.NumFields(); i++ {
+											if isBasicKind(types.Int64)(st.Field(i).Type()) {
+												workOff = "." + st.Field(i).Name()
+											}
+										}
+									}
+								}
+							})
+						}
 						if name == "(*File).readAt" {
 							// packet.off + int64(n) with n from copy (or 0)
 							alts := expandAlts(offT, 0)
@@ -859,7 +884,7 @@ func checkWorkerErrorDelivery(c *Ctx, rule string) {
 								hasOff := false
 								for k, v := range alt.coef {
 									switch {
-									case v == 1 && strings.HasSuffix(k, ".off"):
+									case v == 1 && strings.HasSuffix(k, workOff):
 										hasOff = true
 									case v == 1:
 										if call, ok := alt.atoms[k].(*ssa.Call); ok && builtinName(&call.Call) == "copy" {
@@ -879,7 +904,7 @@ func checkWorkerErrorDelivery(c *Ctx, rule string) {
 						} else {
 							good := len(offT.coef) == 1 && offT.c == 0
 							for k, v := range offT.coef {
-								if v != 1 || !(strings.HasSuffix(k, ".off") || strings.HasPrefix(k, "phi:off")) {
+								if v != 1 || !(strings.HasSuffix(k, workOff) || strings.HasPrefix(k, "phi:")) {
 									good = false
 								}
 							}
@@ -1045,7 +1070,8 @@ func checkOffsetStores(c *Ctx, rule string, only map[string]bool) {
 			t := affineOf(st.Val)
 			if len(t.coef) == 1 && t.c == 0 {
 				for k, v := range t.coef {
-					if v == 1 && strings.HasSuffix(k, ".off") && strings.Contains(k, "firstErr") {
+					_, fname, offF, _ := reducerState(outermost(st.Parent()))
+					if v == 1 && fname != "" && strings.HasSuffix(k, "."+offF) && strings.Contains(k, fname) {
 						// on the error path
 						return true
 					}
@@ -1112,14 +1138,19 @@ func checkOffsetStores(c *Ctx, rule string, only map[string]bool) {
 					continue
 				}
 				cmp, ok := iff.Cond.(*ssa.BinOp)
-				if !ok || cmp.Op != token.NEQ || !isNilConst(cmp.Y) {
+				if !ok || (cmp.Op != token.NEQ && cmp.Op != token.EQL) || !isNilConst(cmp.Y) {
 					continue
 				}
 				k := valKey(cmp.X)
-				if !strings.Contains(k, "firstErr") || !strings.HasSuffix(k, ".err") {
+				_, fname, _, errF := reducerState(f)
+				if fname == "" || !strings.Contains(k, fname) || !strings.HasSuffix(k, "."+errF) {
 					continue
 				}
-				onErr := b.Succs[0].Dominates(a.In.Block())
+				errSide := 0
+				if cmp.Op == token.EQL {
+					errSide = 1
+				}
+				onErr := b.Succs[errSide].Dominates(a.In.Block())
 				c.check(onErr != isAdd, rule, "readFromWithConcurrency offset store path", pos(a.In), "error path sets the error position, success path adds the bytes read", "the offset update is on the wrong side of the error test")
 			}
 		}
@@ -1131,6 +1162,14 @@ func checkOffsetStores(c *Ctx, rule string, only map[string]bool) {
 func offKey(t term) (string, bool) {
 	for k, v := range t.coef {
 		if strings.HasPrefix(k, "fld:") && strings.HasSuffix(k, ".offset") && v == 1 {
+			// the offset field of a File, not a like-named field of something else
+			if a, ok := t.atoms[k]; ok {
+				if u, isLoad := a.(*ssa.UnOp); isLoad {
+					if st, _, _, okF := fieldOf(u.X); okF && typeName(st) != "File" {
+						continue
+					}
+				}
+			}
 			return k, true
 		}
 	}
@@ -1246,23 +1285,19 @@ func checkReducers(c *Ctx, names []string) {
 		}
 		c.looked(name)
 		// firstErr: a local struct with fields off, err whose .off is initialised to MaxInt64
-		var first *ssa.Alloc
-		eachInstr(fn, func(in ssa.Instruction) {
-			if a, ok := in.(*ssa.Alloc); ok && a.Comment == "firstErr" {
-				first = a
-			}
-		})
+		first, firstName, offF, errF := reducerState(fn)
 		if first == nil {
-			c.und("R1", name+" reducer state", p.Pos(fn.Pos()), "no firstErr variable")
+			c.und("R1", name+" reducer state", p.Pos(fn.Pos()), "no reducer state found (a local {offset, error} variable starting at {MaxInt64, nil})")
 			continue
 		}
+		dotOff, dotErr := "."+offF, "."+errF
 		// initial value: stored from a literal whose off is MaxInt64 and err nil
 		initOK := false
 		for _, st := range storesTo(fn, first) {
 			if u, ok := st.Val.(*ssa.UnOp); ok {
 				if lit, ok := u.X.(*ssa.Alloc); ok && !inLoop(st) {
-					if k, ok := constInt(litField(lit, "off")); ok && k == 9223372036854775807 {
-						e := litField(lit, "err")
+					if k, ok := constInt(litField(lit, offF)); ok && k == 9223372036854775807 {
+						e := litField(lit, errF)
 						if e == nil || isNilConst(e) {
 							initOK = true
 						}
@@ -1290,7 +1325,7 @@ func checkReducers(c *Ctx, names []string) {
 				continue
 			}
 			kx, ky := valKey(cmp.X), valKey(cmp.Y)
-			if strings.HasSuffix(kx, ".off") && strings.HasSuffix(ky, ".off") {
+			if strings.HasSuffix(kx, dotOff) && strings.HasSuffix(ky, dotOff) {
 				guard = iff
 			}
 		}
@@ -1300,8 +1335,8 @@ func checkReducers(c *Ctx, names []string) {
 		}
 		cmp := guard.Cond.(*ssa.BinOp)
 		kx, ky := valKey(cmp.X), valKey(cmp.Y)
-		elemFirst := !strings.Contains(kx, "firstErr") && strings.Contains(ky, "firstErr")
-		firstElem := strings.Contains(kx, "firstErr") && !strings.Contains(ky, "firstErr")
+		elemFirst := !strings.Contains(kx, firstName) && strings.Contains(ky, firstName)
+		firstElem := strings.Contains(kx, firstName) && !strings.Contains(ky, firstName)
 		dirOK := (elemFirst && (cmp.Op == token.LEQ || cmp.Op == token.LSS)) || (firstElem && (cmp.Op == token.GEQ || cmp.Op == token.GTR))
 		c.check(dirOK, "R1", name+" reducer keeps the lowest offset", pos(guard), "update only when e.off <= first.off", fmt.Sprintf("the reducer compares %s %s %s: it does not keep the error with the lowest offset", kx, cmp.Op, ky))
 		// the update happens exactly in the true branch
@@ -1343,7 +1378,7 @@ func checkReducers(c *Ctx, names []string) {
 				continue
 			}
 			ek := valKey(errV)
-			c.check(strings.Contains(ek, "firstErr") && strings.HasSuffix(ek, ".err"), "R1", name+" returns the kept error", pos(r), "returns firstErr.err", "the error returned is not the reducer's kept error: "+ek)
+			c.check(strings.Contains(ek, firstName) && strings.HasSuffix(ek, dotErr), "R1", name+" returns the kept error", pos(r), "returns firstErr.err", "the error returned is not the reducer's kept error: "+ek)
 			if name == "(*File).readFromWithConcurrency" {
 				t := affineOf(cntV)
 				okRead := len(t.coef) == 1 && t.c == 0
@@ -1358,7 +1393,7 @@ func checkReducers(c *Ctx, names []string) {
 			t := affineOf(cntV)
 			okCnt := len(t.coef) == 2 && t.c == 0 && t.coef["param:off"] == -1
 			for k, v := range t.coef {
-				if k != "param:off" && !(v == 1 && strings.Contains(k, "firstErr") && strings.HasSuffix(k, ".off")) {
+				if k != "param:off" && !(v == 1 && strings.Contains(k, firstName) && strings.HasSuffix(k, dotOff)) {
 					okCnt = false
 				}
 			}
@@ -1560,4 +1595,44 @@ func checkShortChunkEndsTransfer(c *Ctx, rule string) {
 		}
 	}
 	c.check(n >= 2, rule, "workers that copy DATA payloads", "?", fmt.Sprintf("%d copies", n), fmt.Sprintf("only %d found (readAt, WriteTo expected)", n))
+}
+
+// reducerState finds the state of a "keep the error with the lowest offset" reducer in fn by what it is: a local
+// struct variable with one int64 field and one error field that is initialised from a literal whose int64 field is
+// MaxInt64.  It returns the variable, its name and the names of the two fields (they were firstErr, off and err; the
+// rules no longer depend on that).
+func reducerState(fn *ssa.Function) (first *ssa.Alloc, varName, offField, errField string) {
+	eachInstr(fn, func(in ssa.Instruction) {
+		a, ok := in.(*ssa.Alloc)
+		if !ok || first != nil {
+			return
+		}
+		st := derefStruct(a.Type())
+		if st == nil || st.NumFields() != 2 {
+			return
+		}
+		of, ef := "", ""
+		for i := 0; i < 2; i++ {
+			f := st.Field(i)
+			if isBasicKind(types.Int64)(f.Type()) {
+				of = f.Name()
+			}
+			if f.Type().String() == "error" {
+				ef = f.Name()
+			}
+		}
+		if of == "" || ef == "" {
+			return
+		}
+		for _, s := range storesTo(fn, a) {
+			if u, ok := s.Val.(*ssa.UnOp); ok {
+				if lit, ok := u.X.(*ssa.Alloc); ok {
+					if k, ok := constInt(litField(lit, of)); ok && k == 9223372036854775807 {
+						first, varName, offField, errField = a, a.Comment, of, ef
+					}
+				}
+			}
+		}
+	})
+	return
 }
